@@ -21,6 +21,8 @@ class Gen:
         self.procs: list[dict] = []
         self.calls: list[dict] = []
         self._dummy = False
+        self.nondocs: list[str] = []  # '!!' comments that trail executable statements: documentation of nothing
+        self.r2 = random.Random(hash(rnd.getstate()))  # choices added later: earlier programs keep their shape
 
     def nm(self, pre):
         self.uid += 1
@@ -52,7 +54,9 @@ class Gen:
     def value_for(self, tword):
         r = self.r
         if tword == "character":
-            return r.choice(['"abc"', "'x,y'", '"a(b"', "'it''s'", '"p" // "q"'])
+            v = r.choice(['"abc"', "'x,y'", '"a(b"', "'it''s'", '"p" // "q"'])
+            # an exclamation mark inside the literal does not start a comment
+            return self.r2.choice(['"wow!"', "'a!b, c'", '"!"']) if self.r2.random() < 0.3 else v
         if tword == "logical":
             return r.choice([".true.", ".false.", ".not. .true."])
         if tword == "complex":
@@ -113,6 +117,9 @@ class Gen:
         elif deferred and tword != "character":
             pass
         r.shuffle(attrs_src)
+        if not is_dummy and not param and self.r2.random() < 0.2:
+            # an attribute the parser does not model, anywhere in the list: the others must survive it
+            attrs_src.insert(self.r2.randint(0, len(attrs_src)), self.r2.choice(["codimension[*]", "bind(c)", "BIND(C, name='b_1')"]))
         names = dummy_names or [self.nm("d") for _ in range(r.randint(1, 2))]
         ents, out = [], []
         for n in names:
@@ -203,6 +210,10 @@ class Gen:
             self.lines.append(f"    {res} = 1")
         for _ in range(r.randint(0, 2)):
             self.decls += self.declaration(4, derived=derived, in_proc=True)
+        if self.r2.random() < 0.5:
+            nd = f"doc text {self.nm('k')} trailing an executable statement"
+            self.nondocs.append(nd)
+            self.lines.append(f"    n1 = 1 {self.r2.choice(['!!', '!<'])} {nd}")
         if r.random() < 0.5:
             # the FORTRAN 77 idiom: several entities in one type statement, one of them made EXTERNAL afterwards
             e = [self.nm("e") for _ in range(r.randint(2, 3))]
@@ -356,7 +367,7 @@ def check(text, g: Gen):
                              "params": {"textDocument": {"uri": uri}, "position": {"line": c["line"], "character": ch}}})
         srv, out = session(ws, msgs)
         by = {m["id"]: m for m in out if "id" in m}
-        all_docs = {d["doc"] for d in g.decls if d["doc"]} | {p["doc"] for p in g.procs if p["doc"]} | {d["doc2"] for d in g.decls if d.get("doc2")}
+        all_docs = set(g.nondocs) | {d["doc"] for d in g.decls if d["doc"]} | {p["doc"] for p in g.procs if p["doc"]} | {d["doc2"] for d in g.decls if d.get("doc2")}
         for k, d in hov.items():
             r = by.get(k, {})
             res = r.get("result")
